@@ -8,15 +8,15 @@ for f in sorted(glob.glob('/verif/seeded/*/meta.json')):
     ver = ("suite %s; demo %s with / %s without"%(v['suite_with_change'],v['demo_with_change'].split(' ')[0],v['demo_without_change'].split(' ')[0])) if isinstance(v,dict) else str(v)
     rows.append("| %s | %s | %s | %s | %s |"%(m['id'],m['what_it_changes'].replace('|','/'),m['needs_to_manifest'].replace('|','/'),m['result_against_checks'].replace('|','/'),ver))
 seeded="| id | change (written by an independent sub-agent from the property text alone) | needs | result against the checks | my verification in a scratch worktree |\n|---|---|---|---|---|\n"+"\n".join(rows)
-n=len(rows); missed=sum(1 for r in rows if 'MISSED' in r or 'attributed to' in r)
-seeded+="\n\n%d seeded changes: %d caught by the quick tier as first run, %d missed or mis-attributed at first and caught after the strengthening described in their row.\n"%(n,n-missed,missed)
+n=len(rows); missed=sum(1 for r in rows if 'MISSED' in r or 'attributed to' in r or 'NOT DECIDED' in r); out=sum(1 for r in rows if 'NOT CAUGHT' in r)
+seeded+="\n\n%d seeded changes: %d caught by the quick tier at the first run, %d missed, undecided or mis-attributed at first and caught after the strengthening described in their row, %d not caught because it lies outside what the property quantifies over (see its row).\n"%(n,n-missed-out,missed,out)
 mrows=[]
 for l in open('/verif/mutants/RESULTS.tsv'):
     p=l.rstrip('\n').split('\t')
     if len(p)<4: continue
     name=p[0]; cls=p[4] if len(p)>4 else ''; steps=p[5] if len(p)>5 else ''
     caught = 'exit=1' in p[1] and p[3]=='replay_exit=1'
-    mrows.append("| %s | %s | %s | %s |"%(name.replace('__',' / '), "caught" if caught else "not caught (equivalent: see 9.4 item 6)", cls, steps))
+    mrows.append("| %s | %s | %s | %s |"%(name.replace('__',' / '), "caught" if caught else "not caught (equivalent: see 9.4)", cls, steps))
 mut="| mutant | quick tier | violation class | steps before -> after minimisation |\n|---|---|---|---|\n"+"\n".join(mrows)
 s=open('/verif/DESIGN.md').read()
 def put(tag,body,s):
